@@ -45,7 +45,7 @@ fn bj(b: &Universal2DBox) -> serde_json::Value {
 
 pub fn run(tier: Tier) -> Report {
     let rep = Report::new("C15", tier);
-    rep.set_rule("all unordered sets of <= 3 integer-cornered boxes on a 5-point lattice and of 4 on a 4-point lattice (thorough: also 3 on a 6-point lattice) against exact cell counting, all 6 orderings of each 3-set; enumerated near-degenerate families (identical, shared / collinear edges, right-angle rotations, the angle menu of C08, 1..8 boxes; a rotated box across / inside an axis-aligned one (360 pairs); crowds of 9..40 boxes - pairs, chains, an isolated row with a covered / overlapped tail - in the given order and rotated) against inclusion-exclusion with an independent convex clipper; every ordered set of 2-3 boxes of a 4-box rotated menu x 6 preparations per box (polygon generated, then moved / turned / resized in place, with and without generating it again). Non-trivial = at least two boxes overlap.");
+    rep.set_rule("all unordered sets of <= 3 integer-cornered boxes on a 5-point lattice and of 4 on a 4-point lattice (thorough: also 3 on a 6-point lattice) against exact cell counting, all 6 orderings of each 3-set; sets of 3-4 boxes of very different sizes (unit boxes and boxes 7..12 cells long on a 12-cell lattice), exact as well; enumerated near-degenerate families (identical, shared / collinear edges, right-angle rotations, the angle menu of C08, 1..8 boxes; a rotated box across / inside an axis-aligned one (360 pairs); crowds of 9..40 boxes - pairs, chains, an isolated row with a covered / overlapped tail - in the given order and rotated) against inclusion-exclusion with an independent convex clipper; every ordered set of 2-3 boxes of a 4-box rotated menu x 6 preparations per box (polygon generated, then moved / turned / resized in place, with and without generating it again). Non-trivial = at least two boxes overlap.");
     rep.assume("exact integer cell counting / engine/src/geom.rs inclusion-exclusion; the crate's share is own/(area+1e-5), compared with tolerance 2e-5 + 1e-5/area");
     let evals = AtomicU64::new(0);
     let nontrivial = AtomicU64::new(0);
@@ -137,6 +137,40 @@ pub fn run(tier: Tier) -> Report {
                 }
             }
         });
+    }
+
+    // boxes of very different sizes on a 12-cell lattice (a bus behind a row of pedestrians): unit boxes at even
+    // columns of two rows, and wide / tall boxes that reach across several of them - every set of 3 and of 4 boxes
+    // that holds at least one small and one large box, all orderings of the 3-sets
+    {
+        let mut small: Vec<(i32, i32, i32, i32)> = vec![];
+        for x in [0, 2, 5, 8, 11] {
+            for y in [0, 4] {
+                small.push((x, y, x + 1, y + 1));
+            }
+        }
+        let large: Vec<(i32, i32, i32, i32)> = vec![(0, 0, 12, 2), (0, 0, 12, 6), (4, 0, 12, 5), (0, 0, 7, 6), (1, 3, 12, 6), (0, 0, 3, 12)];
+        let menu: Vec<(i32, i32, i32, i32)> = small.iter().chain(large.iter()).cloned().collect();
+        let ns = small.len();
+        let nm = menu.len();
+        let sets = AtomicU64::new(0);
+        par_for(nm, 1, |i| {
+            for j in i + 1..nm {
+                for k in j + 1..nm {
+                    if i < ns && k >= ns {
+                        sets.fetch_add(1, Ordering::Relaxed);
+                        check_int(&[menu[i], menu[j], menu[k]], 12, true);
+                    }
+                    for l in k + 1..nm {
+                        if i < ns && l >= ns && (tier == Tier::Thorough || (i + j + k + l) % 2 == 0) {
+                            sets.fetch_add(1, Ordering::Relaxed);
+                            check_int(&[menu[l], menu[j], menu[i], menu[k]], 12, false);
+                        }
+                    }
+                }
+            }
+        });
+        rep.extra("mixed_size_sets", json!(sets.load(Ordering::Relaxed)));
     }
 
     // near-degenerate and rotated families against inclusion-exclusion
